@@ -276,7 +276,7 @@ func init() {
 		Strategy string `json:"strategy"`
 		Stops    int    `json:"stops"`
 	}
-	vh.AddPart("C19", "stop-interleavings", "sim", vh.Opts{Shards: 10, TimeoutS: 400},
+	vh.AddPart("C19", "stop-interleavings", "sim", vh.Opts{NoConfirm: true, Shards: 10, TimeoutS: 400},
 		func(e *vh.Env) []c19Sched {
 			var cs []c19Sched
 			for _, st := range allStrategies {
